@@ -356,8 +356,14 @@ void Sandbox::next_stamp(int64_t& s, int64_t& ns, bool zero_nsec)
 void Sandbox::mkdirs_for(const std::string& rel)
 {
 	size_t p = 0;
-	while ((p = rel.find('/', p + 1)) != std::string::npos)
-		mkdir(abs(rel.substr(0, p)).c_str(), 0755);
+	while ((p = rel.find('/', p + 1)) != std::string::npos) {
+		std::string d = abs(rel.substr(0, p));
+		if (mkdir(d.c_str(), 0755) == 0) {
+			// directories get their virtual inode at creation: the scan sorts entries by inode
+			struct stat st;
+			if (lstat(d.c_str(), &st) == 0) sim_vino_get(st.st_ino);
+		}
+	}
 }
 
 static std::string disk_name_of_top(const Config& cfg, const std::string& top)
@@ -453,7 +459,9 @@ bool Sandbox::make_symlink(const std::string& rel, const std::string& target)
 	mkdirs_for(rel);
 	struct stat st;
 	if (lstat(abs(rel).c_str(), &st) == 0) rm_rf(abs(rel));
-	return symlink(target.c_str(), abs(rel).c_str()) == 0;
+	if (symlink(target.c_str(), abs(rel).c_str()) != 0) return false;
+	if (lstat(abs(rel).c_str(), &st) == 0) sim_vino_get(st.st_ino);
+	return true;
 }
 
 bool Sandbox::make_hardlink(const std::string& rel, const std::string& target_rel)
@@ -526,6 +534,7 @@ static void walk(const std::string& absdir, const std::string& rel, Snap& out)
 		node.mtime_s = st.st_mtim.tv_sec;
 		node.mtime_ns = st.st_mtim.tv_nsec;
 		node.mode = st.st_mode & 07777;
+		node.vino = sim_vino_get(st.st_ino);
 		if (S_ISDIR(st.st_mode)) {
 			node.type = 'd';
 			out[r] = node;
@@ -572,9 +581,13 @@ void Sandbox::restore(const Snap& s, const std::vector<std::string>& tops)
 		std::string a = abs(rel);
 		if (n.type == 'd') {
 			mkdir(a.c_str(), 0755);
+			struct stat st;
+			if (n.vino && lstat(a.c_str(), &st) == 0) sim_vino_set(st.st_ino, n.vino);
 		} else if (n.type == 'l') {
 			if (symlink(n.data.c_str(), a.c_str()) != 0) {
 			}
+			struct stat st;
+			if (n.vino && lstat(a.c_str(), &st) == 0) sim_vino_set(st.st_ino, n.vino);
 		} else {
 			auto it = first_of_vino.find(n.vino);
 			if (it != first_of_vino.end()) {
